@@ -75,7 +75,7 @@ func runC10(r *kit.Run) {
 	ends := []string{"run-returns", "close", "parent-cancel"}
 	whens := []string{"after-start-returned", "before-start-returned"}
 	callers := []int{1, 4, 16}
-	reps := int64(r.Scale(1, 20))
+	reps := int64(r.Scale(1, 60))
 	stride := int64(r.Scale(7, 1)) // quick: every 7th cell (offset by seed) ~ 660 cells
 	offset := int64(r.Seed % uint64(stride))
 	cell := int64(0)
